@@ -139,6 +139,9 @@ func c08Inputs(thorough bool) []c01Input {
 			if fk == "bin" || fk == "nl" {
 				lens = append(lens, 4096, 70000)
 			}
+			if fk == "bin" && i == 0 {
+				lens = append(lens, 65515, 65516, 65517, 131032, 131033) // around one and two full pkt-line packets
+			}
 			for _, L := range lens {
 				d := append([]byte(p), c08Fill(fk, L-len(p))...)
 				add(fmt.Sprintf("ext%d-%s-%d", i, fk, L), "ptrext", d, len(p))
@@ -147,7 +150,7 @@ func c08Inputs(thorough bool) []c01Input {
 	}
 	// (4) plain non-pointers
 	for _, kind := range []string{"bin", "text"} {
-		for _, n := range []int{1, 1023, 1024, 1025} {
+		for _, n := range []int{1, 1023, 1024, 1025, 65515, 65516, 65517, 131032, 131033} {
 			add(fmt.Sprintf("non-%s%d", kind, n), "nonptr", gitx.Content(kind, n, uint32(n)+5), 0)
 		}
 	}
@@ -305,7 +308,7 @@ func c08Class(in c01Input, ch c01Chunking) string {
 }
 
 func (e *c01Env) c08Parts() []c01Part {
-	return []c01Part{e.c08PartInproc(), e.c08PartOneshot(), e.c08PartFilterProcess(), e.c08PartGit(), e.c08PartSkipSmudge()}
+	return []c01Part{e.c08PartInproc(), e.c08PartOneshot(), e.c08PartFilterProcess(), e.c08PartGit(), e.c08PartCheckout(), e.c08PartSkipSmudge()}
 }
 
 func c08Outcome(delivery, branch string, in c01Input, fail *c01Fail, sm string) string {
@@ -525,10 +528,15 @@ func (e *c01Env) c08PartFilterProcess() c01Part {
 			}
 		}
 		pk := pks[x.In(len(pks))]
+		delay := x.In(2) == 1 // capability=delay negotiated, can-delay=1 on the smudge request (git checkout's mode)
 		parses := c08WellFormed(in.Data)
-		caseID := fmt.Sprintf("filter-process input=%s worktree=%s packets=%s", in.Name, wt, pk.name)
+		caseID := fmt.Sprintf("filter-process input=%s worktree=%s packets=%s can-delay=%v", in.Name, wt, pk.name, delay)
+		smClass := c08Class(in, c01Chunking{})
+		if delay {
+			smClass += ",filter-process-can-delay"
+		}
 		r := vx.Result{Evals: 1, Counters: map[string]int64{}, NonTrivial: []string{caseID}, Sample: map[string]interface{}{"delivery": "real `git-lfs filter-process`, own pkt-line client", "input": in.Name, "bytes": n,
-			"input_parses_as_pointer": parses, "worktree_file": wt.String(), "packet_payload_sizes": pk.name}}
+			"input_parses_as_pointer": parses, "worktree_file": wt.String(), "packet_payload_sizes": pk.name, "can_delay": delay}}
 		class := c08Class(in, c01Chunking{})
 		cl := map[string]int64{}
 		defer func() {
@@ -539,7 +547,7 @@ func (e *c01Env) c08PartFilterProcess() c01Part {
 		w, repo := c01Repo(e.scratch, true, "")
 		defer w.Close()
 		c01PutWT(repo, "f.bin", wt, in.Data)
-		fp, err := c01StartFP(w, repo, nil)
+		fp, err := c01StartFP(w, repo, nil, delay)
 		if err != nil {
 			if fp != nil {
 				fp.Close()
@@ -584,13 +592,17 @@ func (e *c01Env) c08PartFilterProcess() c01Part {
 			sm = "smudge-passthrough"
 			if sf != nil {
 				sm = "smudge-FAIL"
-				r.Violations = append(r.Violations, c01Viol(e.prop, sf, class, caseID+" (smudge)", map[string]interface{}{"input": c01Short(in.Data), "stderr": c01LastLines(stderr, 4)}))
+				r.Violations = append(r.Violations, c01Viol(e.prop, sf, smClass, caseID+" (smudge)", map[string]interface{}{"input": c01Short(in.Data), "stderr": c01LastLines(stderr, 4)}))
 				if fail == nil {
 					fail = sf
 				}
 			}
 		}
-		r.Outcome = c08Outcome("filterprocess", branch, in, fail, sm)
+		dl := ""
+		if delay {
+			dl = "-can-delay"
+		}
+		r.Outcome = c08Outcome("filterprocess"+dl, branch, in, fail, sm)
 		return r
 	}
 	return c01Part{"filterprocess", run}
@@ -692,6 +704,91 @@ func (e *c01Env) c08PartGit() c01Part {
 		return r
 	}
 	return c01Part{"git", run}
+}
+
+// checkout: real `git checkout` / `git clone` of RAW (non-pointer) blobs sitting at LFS-tracked paths (content committed
+// before the path was tracked): git drives smudge through filter-process with can-delay=1 (or the one-shot smudge);
+// the file in the work tree must be the blob, byte for byte.
+func (e *c01Env) c08PartCheckout() c01Part {
+	var ins []c01Input
+	for _, in := range e.c08E2EInputs() {
+		if !c08WellFormed(in.Data) {
+			ins = append(ins, in)
+		}
+	}
+	cmds := []string{"checkout -- f.bin", "clone"}
+	run := func(x *vx.X) vx.Result {
+		in := ins[x.In(len(ins))]
+		n := len(in.Data)
+		process := x.In(2) == 0
+		cmd := cmds[x.In(len(cmds))]
+		mode := "one-shot filters"
+		if process {
+			mode = "filter-process (can-delay=1)"
+		}
+		caseID := fmt.Sprintf("checkout input=%s mode=%s command=%s", in.Name, mode, cmd)
+		r := vx.Result{Evals: 1, Counters: map[string]int64{}, NonTrivial: []string{caseID}, Sample: map[string]interface{}{"delivery": "real git " + cmd + " of a raw blob at an LFS-tracked path", "input": in.Name, "bytes": n, "filter_mode": mode}}
+		class := c08Class(in, c01Chunking{})
+		if process {
+			class += ",filter-process-can-delay"
+		}
+		w, repo := c01Repo(e.scratch, process, "")
+		defer w.Close()
+		step := func(name string, rs gitx.Res) bool {
+			if rs.TimedOut || !rs.OK() {
+				r.Inconcl = "setup step " + name + " did not succeed"
+				return false
+			}
+			return true
+		}
+		gitx.WriteFile(repo, "f.bin", in.Data, 0644)
+		if !step("add", w.Git(repo, "add", "f.bin")) || !step("commit", w.Git(repo, "commit", "-qm", "raw")) {
+			return r
+		}
+		gitx.WriteFile(repo, ".gitattributes", []byte("*.bin filter=lfs -text\n"), 0644)
+		if !step("add attributes", w.Git(repo, "add", ".gitattributes")) || !step("commit attributes", w.Git(repo, "commit", "-qm", "track")) {
+			return r
+		}
+		if blob := w.Git(repo, "cat-file", "blob", "HEAD:f.bin").Out; blob != string(in.Data) {
+			r.Inconcl = "setup: HEAD:f.bin is not the raw content"
+			return r
+		}
+		target := filepath.Join(repo, "f.bin")
+		var rs gitx.Res
+		if cmd == "clone" {
+			dst := filepath.Join(w.Root, "dst")
+			rs = w.Git(w.Root, "clone", "-q", repo, dst)
+			target = filepath.Join(dst, "f.bin")
+		} else {
+			os.Remove(target)
+			rs = w.Git(repo, "checkout", "--", "f.bin")
+		}
+		if rs.TimedOut {
+			r.Inconcl = "git " + cmd + " timeout"
+			return r
+		}
+		var f *c01Fail
+		r.Counters["clause:git-command-succeeds"]++
+		if !rs.OK() {
+			f = &c01Fail{"filter-aborted", fmt.Sprintf("git %s of a non-pointer blob at an LFS path failed: %s", cmd, c01LastLines(rs.Err, 4))}
+		} else {
+			got, _ := os.ReadFile(target)
+			cl := map[string]int64{}
+			f = c08JudgeRawSmudge(in.Data, c01SmudgeObsOf(got, ""), cl)
+			for k, v := range cl {
+				r.Counters["clause:"+k] += v
+			}
+			if f != nil {
+				f.Msg = fmt.Sprintf("work-tree file after `git %s` (%s): ", cmd, mode) + f.Msg
+			}
+		}
+		if f != nil {
+			r.Violations = append(r.Violations, c01Viol(e.prop, f, class, caseID, map[string]interface{}{"stderr": c01LastLines(rs.Err, 4)}))
+		}
+		r.Outcome = c08Outcome("checkout-"+strings.SplitN(cmd, " ", 2)[0], "B-content-in-full", in, f, "smudge-passthrough")
+		return r
+	}
+	return c01Part{"checkout", run}
 }
 
 // skip-smudge round trip: clone with GIT_LFS_SKIP_SMUDGE=1 (pointer files in the working tree, no objects), then
@@ -901,7 +998,7 @@ func c08Describe(c *vx.Check, e *c01Env) {
 		"a pointer extended by {spaces, newlines, CRLF, tabs, an unknown line, a second size line, 'x', blank line + 'x', binary} to total lengths {pointer+1, 1022, 1023, 1024, 1025, 2048 (binary/newlines also 4096, 70000)}; non-pointers of 1/1023/1024/1025 bytes; whitespace-only inputs {spaces, LF, CR LF, tabs, mixed} x {1,2,1023,1024,1025,2048} bytes and blank prefixes followed by text / a pointer. " +
 		"chunkings: every set of <=2 cut points from {1, 60, end of pointer text -1/0/+1, 1023, 1024, 1025, size-1}, 1 byte per read (sizes<=1025), and for 6 inputs every single cut position; EOF separately / with the last data; working-tree file absent / same bytes. " +
 		"oracle per case: (A) output == input and store unchanged iff the input is empty or (< 1024 bytes, lfs.DecodePointer accepts it, and it has version/oid/size lines by an independent structural test), else (B) output == canonical pointer of (SHA-256(input), len(input)) and the store gained exactly that object; for inputs of class B the same bytes are also smudged: output == input. " +
-		"oneshot: real binary through a kernel pipe with exact chunking (quick <=1 cut, thorough <=2); filterprocess: packet payload sizes {1,1023,1024,1025,65516,1/65516}; git: git add, git hash-object --path, git cat-file --filters with filter-process and one-shot filters; " +
+		"oneshot: real binary through a kernel pipe with exact chunking (quick <=1 cut, thorough <=2); filterprocess: packet payload sizes {1,1023,1024,1025,65516,1/65516} x {plain, capability=delay negotiated + can-delay=1 on the smudge request}, the answer parsed as git parses it (status list up to the first flush, content up to a flush, final status list); checkout: real git checkout / git clone of raw non-pointer blobs at LFS-tracked paths (process filter with can-delay, and one-shot smudge); plain and pointer-prefixed binary content also at 65515,65516,65517,131032,131033 bytes (one and two full pkt-line packets); git: git add, git hash-object --path, git cat-file --filters with filter-process and one-shot filters; " +
 		"skipsmudge: GIT_LFS_SKIP_SMUDGE=1 clone of 9 LFS files (0,1,1023,1024,5000,70000 bytes, look-alike, two whitespace-only) then {add -A, add --renormalize, stash, commit -a} x {mtime touched, rewritten, user appended newline / CRLF} x filter mode. " +
 		"distinct_nontrivial = distinct cases (every case evaluates the dichotomy)"
 	c.Assumptions = []string{
@@ -916,6 +1013,6 @@ func c08Describe(c *vx.Check, e *c01Env) {
 	if !e.thorough {
 		c.Bounds["quick_tier_reductions"] = "inproc: pairs of cut points and the every-position sweeps only for (file absent, separate EOF); non-canonical spellings of 2 base pointers; " +
 			"oneshot/filterprocess/git: inputs of base pointer 0 with fills {spaces, newlines, unknown line, x, binary}; oneshot: cuts {1, end of pointer, 1024, size-1} singly, 1 byte per read for 3 inputs, same-file only unchunked; " +
-			"filterprocess: packet sizes {65516,1,1024,1/65516}, same-file only 65516; git: git add and hash-object without file. thorough: full products"
+			"filterprocess: packet sizes {65516,1,1024,1/65516}, same-file only 65516, each plain and with can-delay; checkout: same input subset (non-pointers only); git: git add and hash-object without file. thorough: full products"
 	}
 }
